@@ -1,5 +1,5 @@
-"""family `ladder` (C17): allocation / release pattern of dup_ustrings, cif_value_clone, cif_value_insert_element_at under
-one failed allocation, for every fault position of every generated shape"""
+"""family `ladder` (C17): allocation / release pattern of dup_ustrings, cif_value_clone, cif_value_insert_element_at,
+cif_value_set_element_at under one failed allocation, for every fault position of every generated shape"""
 import os, sys
 sys.path.insert(0, os.path.dirname(os.path.abspath(__file__)))
 from common import rng
@@ -7,7 +7,7 @@ from common import rng
 FAMILY = "ladder"
 HARNESS = {"source": "x_ladder.c", "exclude_objs": ["loop"], "leak_clean": True}
 ENV = {"VERIF_LEAKCHECK": "1"}
-RULE = ("dup: n = 0..12 x every fault position 0..n+2; clone / insert: value shapes (scalars, numbers with and without su, "
+RULE = ("dup: n = 0..12 x every fault position 0..n+2; clone / insert / set: value shapes (scalars, numbers with and without su, "
         "lists nested <= 3, width <= 4; random beyond the enumerated small ones) x every fault position 0..(allocations+1); "
         "non-trivial = a fault position that is reached; oracle: on failure nothing allocated in the call stays live, no "
         "block is released twice, result is CIF_MEMORY_ERROR/CIF_ERROR; on success rc = 0")
@@ -57,6 +57,8 @@ def generate(seed, tier):
             for full in (0, 1):
                 for k in range(0, n + 3):
                     yield "ladder insert %d %s %d" % (full, " ".join(toks(sh)), k)
+        for k in range(0, n + 1):             # clone into the existing target: one request less (no value object)
+            yield "ladder set %s %d" % (" ".join(toks(sh)), k)
 
 
 def _f(obs, name):
@@ -79,6 +81,10 @@ def oracle(req, impl):
         return None
     if "!LEAK" in impl:
         return "memory leaked"
+    for mark, what in (("!COUNT", "the list lost or gained elements"), ("!ELEM", "the target element is no longer retrievable"),
+                       ("!KIND", "after success the target element does not have the kind of the source")):
+        if mark in impl:
+            return "cif_value_set_element_at: " + what
     rc, fails, live, frees = _f(impl, "rc"), _f(impl, "fails"), _f(impl, "live"), _f(impl, "frees")
     if frees and frees != "-":
         ids = frees.split(",")
